@@ -30,10 +30,10 @@ pub const SUBS: &[SubDef] = &[
 ];
 
 fn run(ctx: &Ctx) {
-    ctx.run_tape("tls_many", tls_many, ctx.pick(8_000, 400_000), 1500);
-    ctx.run_tape("dtls_many", dtls_many, ctx.pick(6_000, 300_000), 1500);
-    ctx.run_tape("alias", alias, ctx.pick(10_000, 400_000), 500);
-    ctx.run_tape("many_raw", many_raw, ctx.pick(10_000, 400_000), 96);
+    ctx.run_tape("tls_many", tls_many, ctx.pick(80_000, 400_000), 1500);
+    ctx.run_tape("dtls_many", dtls_many, ctx.pick(60_000, 300_000), 1500);
+    ctx.run_tape("alias", alias, ctx.pick(100_000, 400_000), 500);
+    ctx.run_tape("many_raw", many_raw, ctx.pick(100_000, 400_000), 96);
 }
 
 fn ending(t: &mut Tape, dtls: bool, valid: &[u8]) -> (&'static str, Vec<u8>) {
